@@ -69,7 +69,7 @@ func (db *SpecDB) prelude() *Prelude {
 	// defined spec functions: (define-fun name ((p Int) ...) Int body)
 	for _, name := range db.DefineOrder {
 		d := db.Defines[name]
-		ex := &Exec{db: db, loopCache: map[*ssa.Function]*LoopInfo{}, usedUnknown: map[string]bool{}, usedContracts: map[string]bool{}, siteOrd: map[*ssa.Function]map[ssa.Instruction]int{}}
+		ex := &Exec{db: db, loopCache: map[*ssa.Function]*LoopInfo{}, usedUnknown: map[string]bool{}, usedContracts: map[string]bool{}, siteOrd: map[*ssa.Function]map[ssa.Instruction]int{}, trackCache: map[*Contract]map[string]bool{}}
 		st := newState(ex)
 		st.allocCtr = IntLit(1)
 		vars := map[string]Val{}
